@@ -26,7 +26,7 @@ import time
 import traceback
 
 VERIF = os.path.dirname(os.path.dirname(os.path.abspath(__file__)))
-EVIDENCE_DIR = os.path.join(VERIF, 'evidence')
+EVIDENCE_DIR = os.environ.get('VERIF_EVIDENCE_DIR') or os.path.join(VERIF, 'evidence')
 REPLAY_DIR = os.path.join(VERIF, 'replays')
 KNOWN_FILE = os.path.join(VERIF, 'known_findings.json')
 
@@ -372,8 +372,9 @@ def worker_main(argv):
         dn = os.open(os.devnull, os.O_WRONLY)
         os.dup2(dn, 1)
         os.dup2(dn, 2)
-    from . import boot, state
+    from . import boot, state, selftest
     boot.boot()
+    selftest.apply_mutant_from_env()
     state.snapshot()
 
     def emit(obj):
